@@ -173,7 +173,7 @@ def _class_route(ctx):
         def __repr__(self):
             return '<class Outer>'
     saved_stubs, saved_inst = dict(F.stubs), F.isinstance_hook
-    log = {'decorated': [], 'set': [], 'marker_read': [], 'marker_written': [], 'marked': False}
+    log = {'decorated': [], 'set': [], 'marker_read': [], 'marker_written': [], 'marked': False, 'events': []}
 
     def inst(obj, c):
         is_type = isinstance(c, Sym) and c.kind == 'builtin' and c.name == 'type'
@@ -207,11 +207,12 @@ def _class_route(ctx):
     def decorate(env, a, k):
         obj = k.get('obj', a[0] if a else None)
         log['decorated'].append((obj, k.get('conf', a[1] if len(a) > 1 else None), k.get('cls_stack')))
+        log['events'].append('decorated')
         if getattr(obj, 'kind', '') == 'unchanged-function':
             return obj
         return Inst('Checked', (repr(obj),))
     F.stubs['beartype._decor.decorcore.beartype_object'] = decorate
-    F.stubs['beartype._util.cls.utilclsset.set_type_attr'] = lambda e, a, k: log['set'].append(tuple(a)) or None
+    F.stubs['beartype._util.cls.utilclsset.set_type_attr'] = lambda e, a, k: (log['set'].append(tuple(a)), log['events'].append('replaced')) and None
     F.stubs['beartype._util.module.utilmodget.get_object_module_name_or_none'] = lambda e, a, k: None
     F.stubs['beartype._util.cls.pep.clspep557.is_type_pep557_dataclass'] = lambda e, a, k: False
     sent = F.const('beartype._util.cache.utilcacheobjattr', 'SENTINEL')
@@ -221,7 +222,8 @@ def _class_route(ctx):
         return True if log['marked'] else sent
     F.stubs['beartype._util.cache.utilcacheobjattr.get_type_attr_cached_or_sentinel'] = get_marker
     F.stubs['beartype._util.cache.utilcacheobjattr.set_type_attr_cached'] = \
-        lambda e, a, k: log['marker_written'].append(tuple(a[1:]) if len(a) > 1 else (k.get('attr_name'), k.get('attr_value'))) or None
+        lambda e, a, k: (log['marker_written'].append(tuple(a[1:]) if len(a) > 1 else (k.get('attr_name'), k.get('attr_value'))),
+                         log['events'].append('marked')) and None
 
     def members():
         return {
@@ -237,7 +239,11 @@ def _class_route(ctx):
         }
     conf = AConf(is_pep557_fields=False)
     try:
-        for stack_name, stack in (('absent', 'absent'), ('None', None), ('outer-classes', ('Enclosing',))):
+        O0 = F.eval_in(repo.mod('beartype._conf.confenum'), ast.parse('BeartypeStrategy.O0', mode='eval').body)
+        conf_default = conf
+        for stack_name, stack, conf in (('absent', 'absent', conf_default), ('None', None, conf_default), ('outer-classes', ('Enclosing',), conf_default),
+                                        ('two-outer-classes', ('Root', 'Middle'), conf_default),
+                                        ('None:strategy-O0', None, AConf(is_pep557_fields=False, strategy=O0))):
             for marked in (False, True):
                 for k_ in log:
                     if isinstance(log[k_], list):
@@ -289,6 +295,11 @@ def _class_route(ctx):
                        'the class is marked as decorated under the key the idempotence guard reads',
                        len(w) == 1 and len(log['marker_read']) >= 1 and w[0][0] == log['marker_read'][0] and w[0][1] is True,
                        f'guard reads {log["marker_read"]}, written {w}')
+                ev = log['events']
+                ctx.ob('C13.R5', f'beartype_type:marks-the-class-last:{tag}', tm.where(fn.node),
+                       'the class is marked as decorated only after every member was decorated and replaced (a concurrent or '
+                       're-entrant decoration that sees the mark must find a finished class)',
+                       'marked' in ev and ev.index('marked') == len(ev) - 1, f'order of events: {ev}')
     finally:
         F.isinstance_hook, F.builtin_hook = saved_inst, saved_b
         F.stubs.clear()
